@@ -25,8 +25,10 @@ package c03
 import (
 	"fmt"
 	"math/rand"
+	"os"
 	"reflect"
 	"sort"
+	"time"
 
 	"github.com/whatap/golib/lang/pack"
 	"github.com/whatap/golib/lang/value"
@@ -402,8 +404,14 @@ type forced struct {
 }
 
 func lifeHistoryF(c *core.Ctx, h *hist, pt *ptype, r *rand.Rand, mode, lf int, f *forced) error {
-	it := &instance{pt: pt, seed: r.Int63(), depth: 1}
-	for try := 0; f != nil && try < 1000 && !f.accept(it.build()); try++ {
+	it := &instance{pt: pt, seed: r.Int63(), depth: 1, light: true}
+	// a light object (every probe of a later write replays the whole life of the object on a copy; long
+	// texts and wide tables are the codec generator's subject)
+	for try := 0; try < 1000; try++ {
+		p0 := it.build()
+		if (f == nil || f.accept(p0)) && (len(walkObject(p0)) <= 700 || try >= 50 && f == nil) {
+			break
+		}
 		it.seed = r.Int63()
 	}
 	var p interface{}
@@ -484,8 +492,16 @@ func lifeHistoryF(c *core.Ctx, h *hist, pt *ptype, r *rand.Rand, mode, lf int, f
 			}
 			what = op + "-all"
 			if !apply(op+"*", func(q interface{}) {
+				lq := walkObject(q) // one walk: none of these operations changes the shape of the object
 				for i, k := range ks {
-					leafStep(k, paths[i], op)(q)
+					if k >= len(lq) || lq[k].path != paths[i] {
+						panic(fmt.Sprintf("c03 life: leaf %d is not %s on the rebuilt copy", k, paths[i]))
+					}
+					if op == "zero" {
+						lq[k].zero()
+					} else {
+						lq[k].mut()
+					}
 				}
 			}) {
 				return nil
@@ -581,7 +597,7 @@ func lifeHistoryF(c *core.Ctx, h *hist, pt *ptype, r *rand.Rand, mode, lf int, f
 		// populated alike and changed alike but never written tells which leaves a fresh object of this content
 		// carries; where the twin holds the same leaf value they are owed by this write too (a writer that
 		// sends something it kept from an earlier write ignores the leaf, so the probes above cannot see it)
-		twin := &instance{pt: pt, seed: it.seed, depth: it.depth, nonil: it.nonil, replay: func(q interface{}) {
+		twin := &instance{pt: pt, seed: it.seed, depth: it.depth, nonil: it.nonil, light: true, replay: func(q interface{}) {
 			for _, s := range changes {
 				s(q)
 			}
@@ -675,10 +691,14 @@ func runLife(c *core.Ctx) error {
 			}
 			h := &hist{t: t}
 			t.Reset("life", cas, core.Ev{"type": pt.name, "mode": mode})
+			t0 := time.Now()
 			if err := lifeHistory(c, h, pt, r, mode, lf); err != nil {
 				return err
 			}
 			h.end()
+			if d := time.Since(t0); d > 2*time.Second && os.Getenv("C03_TIMING") != "" {
+				fmt.Fprintf(os.Stderr, "life/%d %s mode %d: %v\n", cas, pt.name, mode, d)
+			}
 		}
 	}
 	return nil
@@ -752,8 +772,14 @@ func holdPacks(c *core.Ctx, h *hist, r *rand.Rand, sameType int) error {
 		lv := objs[o]
 		use(o)
 		h.emit(core.Ev{"ev": "Peek", "what": []string{"bytes"}, "bytes": core.Cp(lv.raw)})
-		q, ok := decEvents(h.emit, lv.pt, lv.raw, lv.m.bytes)
-		if !ok {
+		if _, ok := decEvents(h.emit, lv.pt, lv.raw, lv.m.bytes); !ok {
+			return nil
+		}
+		// the decoded pack that is kept: one nobody writes (decEvents writes the pack it decoded when the type
+		// has lazily decoded sections, and a writer may complete the pack it writes)
+		q, _, msg := decode(lv.pt, lv.raw)
+		if msg != "" {
+			h.emit(core.Ev{"ev": "Panic", "in": "Read(kept)", "type": lv.pt.name, "msg": msg})
 			return nil
 		}
 		lv.q = q
